@@ -217,10 +217,13 @@ func c04Fluent(r *rand.Rand, idx int, docs []map[string]any) Case {
 			default:
 				h.Add(dom.Builder().FromMap(deepCopy(d).(map[string]any)).Seal())
 			}
+			if i == 0 && (idx/8)%3 == 0 { // the accumulated result looked at after the first source, two more follow in a row
+				_ = h.Result()
+			}
 		}
 		// last document through a file
 		fluent.NewConfigHelper[map[string]any]().Add(deepCopy(docs[len(docs)-1])).Save(file)
-		if (idx/8)%2 == 0 { // the accumulated result may be looked at on the way (e.g. to find the file to load next)
+		if (idx/8)%3 == 1 { // the accumulated result may be looked at on the way (e.g. to find the file to load next)
 			_ = h.Result()
 		}
 		res := h.Load(file).Result()
@@ -298,6 +301,11 @@ func init() {
 				c04Merge(nil, map[string]any{"l": []any{[]any{1}, 2}}, map[string]any{"l": []any{[]any{3}}}, true),
 				c04Merge(nil, map[string]any{"a": map[string]any{"b": 1}}, map[string]any{"a": []any{}}, false),
 				c04Merge(nil, wideDoc(150, "x"), wideDoc(150, "y"), false), // many mappings side by side, in a mapping and in a list
+				// the accumulated document looked at, then two more sources in a row; a key goes section -> scalar -> section
+				c04Fluent(rand.New(rand.NewSource(1)), 0, []map[string]any{
+					{"db": map[string]any{"host": "h", "port": 5432}, "l": []any{1, 2, 3}},
+					{"db": "sqlite://file", "l": "none"},
+					{"db": map[string]any{"host": "h2"}, "l": []any{9}}}),
 			}
 		},
 		Gen: func(r *rand.Rand, tier string, idx int) Case {
